@@ -2,41 +2,49 @@
 {'harness': 'c11',
  'props': 'Props/C11.v',
  'models': ['Base/Tree.v', 'Model/Nav.v'],
- 'trusted': ['antchfx/xpath v1.1.11 (the expression engine) enters the theorems as an arbitrary '
-             'deterministic program over the NodeNavigator interface (free structure prog: observe / move / '
-             'Copy / MoveTo over a register file of navigators); the engine itself is run, not modelled, by '
-             'the end-to-end comparison (its optional NamespaceURL side interface, used only by '
-             'namespace-uri(), is outside the interface and outside the generated expressions)',
-             'reference binding antchfx/xmlquery v1.3.1: navigator transcribed from query.go. Its parser '
-             'output is normalised by the harness to the XPath data model (DeclarationNode removed; '
-             'CharDataNode retyped TextNode, because v1.3.1 types all character data CharDataNode and its '
-             'navigator returns "" as their value); empty text nodes (from <![CDATA[]]>) are kept',
-             'repaired reference (harness fixNav = model run_dom true): xmlquery navigator with Value() of '
-             'the document node = its InnerText (Q1) and MoveToRoot() resetting the attribute index (Q2); '
-             'proved identical to xmlquery as it is on every execution that does not hit Q1/Q2 '
-             '(repair_conservative); the harness counts the evaluations in which the repair was active',
+ 'trusted': ['PROVED over the model (Props/C11.v, 26 theorems, no axioms): step simulation and whole-program '
+             'agreement of the two navigators (any program, any document, any start node); the guard ref_ok '
+             'is decidable (ref_okb_spec) and is exactly the two defects of the reference '
+             '(obs_differ_only_at_Q1 / Q1_characterised, moves_differ_only_at_Q2 / Q2_characterised); names '
+             'seen by the engine (name_of_element, name_of_attribute, name_test_agree, '
+             'bare_name_test_element); attribute positions (attr_walk_document_order, attr_position_refuses, '
+             'attr_parent_is_owner); the idr/query.go wrappers over ANY iterator (match_all_is_the_iteration '
+             'both directions, match_single_classification, match_single_on_panic, '
+             'match_single_consistent_with_match_all, match_any_spec); no panic / no invalid position',
+             'EXTRACTED from idr/navigator.go on every run (harness/cmd/extract/gen_nav.go -> '
+             'coq/Gen/NavShape.v, tied by navigator_shape_extracted): the NodeType switch as a table (with '
+             'the xpath.NodeType iota values of antchfx/xpath v1.1.11), the attribute guard at the head of '
+             'MoveToChild/MoveToFirst/MoveToNext/MoveToPrevious, Value() = nav.cur.InnerText(); everything '
+             'else of navigator.go, node.go InnerText and query.go is transcribed by hand',
+             'COMPARED ONLY (correspondence / Go oracle, no theorem): that the hand transcription matches '
+             'the Go code - every Coq case replays real runs of both navigators through the model '
+             'interpreters (fx as run), evaluates ref_okb and demands equal traces when it holds, walks the '
+             'attribute axis of the OBSERVED tree from every node (check_attr_axis), and replays '
+             'MatchAll/MatchSingle/MatchAny over the iteration idr.QueryIter was seen to produce '
+             '(check_wcase); the xpath engine itself (antchfx/xpath v1.1.11: run, never modelled; enters the '
+             'theorems as an arbitrary program over the NodeNavigator interface resp. an arbitrary '
+             'iterator); the expression cache of go-corelib (sequences of near-identical queries vs '
+             'DisableXPathCache); node pooling (documents read after an earlier document was streamed and '
+             'released; root links nil)',
+             'reference binding antchfx/xmlquery v1.3.1: navigator transcribed from query.go; parser output '
+             'normalised by the harness to the XPath data model (DeclarationNode removed; CharDataNode '
+             'retyped TextNode; empty text nodes kept); repaired reference (harness fixNav = model run_dom '
+             'true) proved identical to xmlquery as it is on every execution outside Q1/Q2 '
+             '(repair_conservative)',
              'XML tokenisation (encoding/xml) and the construction of both trees are outside the theorems '
-             '(C08); every document is checked node by node for equal shape of the two trees (a difference '
-             'is reported with an xpath-level witness such as count(//node())), and every Coq case checks '
-             'that the tree idr.NewXMLStreamReader built equals to_idr of the DOM xmlquery built',
-             'the string API (idr.MatchAll / MatchSingle over the process-wide compiled-expression cache of '
-             'go-corelib) is not modelled: it is exercised by sequences of near-identical expressions in one '
-             'process and compared with DisableXPathCache, MatchSingle and the reference on every query',
-             'node pooling (sync.Pool behind idr.CreateNode / Release) is not modelled in C11 (C12 owns it): '
-             'it is exercised by sequences of documents in one process - an earlier document streamed with a '
-             'record-level target and released, free-standing nodes created and released - before the '
-             'document under comparison is read; the document node of every IDR tree is checked for nil '
-             'Parent/PrevSibling/NextSibling and probed through the sibling / preceding / following moves '
-             'and axes'],
+             '(C08); every document is checked node by node for equal shape of the two trees, every Coq case '
+             'checks tree_eqb (to_idr DOM) (observed IDR tree)'],
  'assumptions': ['dom_wfb: only element nodes carry attributes (XML)',
                  'scope: documents without comment / processing-instruction nodes (the IDR does not '
                  'represent them)',
-                 'nav_programs_agree (xmlquery as it is) carries the named guard ref_ok: the execution on '
-                 'the reference performs neither Value() on the document node nor MoveToRoot() on an '
-                 'attribute position (xmlquery v1.3.1 defects Q1/Q2, witnesses in '
-                 'nav_programs_agree_unguarded_refuted; on both the IDR follows the XPath data model); '
-                 'nav_programs_agree_repaired has no guard',
+                 'nav_programs_agree (xmlquery as it is) carries the named guard ref_ok (no Value() on the '
+                 'document node, no MoveToRoot() on an attribute position: xmlquery v1.3.1 defects Q1/Q2, '
+                 'proved to be the only differences); nav_programs_agree_repaired has no guard',
                  'namespace prefixes are compared as strings (xpath v1.1.11 name tests use Prefix(), not the '
-                 'namespace URI); each URI is bound to one prefix in generated documents (guard of known '
-                 'finding F11, which xmlquery shares: both parsers use one global URI->prefix map, so F11 is '
-                 'invisible to this oracle; corpus cases f11-*)']}
+                 'namespace URI; namespace-uri() goes through an optional side interface outside '
+                 'NodeNavigator); each URI bound to one prefix in generated documents (guard of known '
+                 'finding F11, which xmlquery shares)',
+                 'wrappers: the iterator is abstract (state + step yielding a node / end / panic); MatchAll '
+                 'needs fuel > number of nodes iterated (an iterator that never ends gives OutOfFuel: this '
+                 'happens in Go for a boolean-valued xpath that is true, e.g. MatchAll(n, "@k=\'1\'") never '
+                 'returns - reported to C03, outside the generated node-set expressions)']}
